@@ -57,6 +57,33 @@ def ref_parse(tokens):
     return x
 
 
+def ref_print(ast):
+    """the documented printed form: leaves as written, 'not x', and the parenthesised ' and ' / ' or ' join"""
+    k = ast[0]
+    if k == 'leaf':
+        return ast[1]
+    if k == 'not':
+        return 'not ' + ref_print(ast[1])
+    return '(' + (' %s ' % k).join(ref_print(x) for x in ast[1]) + ')'
+
+
+def ref_flat(ast):
+    """normal form modulo associativity: and directly under and (or under or) is spliced into its parent"""
+    k = ast[0]
+    if k == 'leaf':
+        return ast
+    if k == 'not':
+        return ('not', ref_flat(ast[1]))
+    xs = []
+    for x in ast[1]:
+        fx = ref_flat(x)
+        if fx[0] == k:
+            xs.extend(fx[1])
+        else:
+            xs.append(fx)
+    return (k, xs)
+
+
 def ref_eval(ast, val):
     k = ast[0]
     if k == 'leaf':
@@ -311,7 +338,8 @@ def c02(tier='quick', seed=0):
     rng = random.Random(seed)
     junk = ['"abc"', "'a':'b'", 'role', 'role:', ':x', 'a b', '((', '))', ')(', '@(', ')@', 'role:a(', ')role:a', '@ @',
             'not', 'and or', '%', '()', '( )', 'role:a role:b', 'role:a and', 'or role:a', 'not not', '"', "'",
-            'éè', 'rule:', '@@', '!!', 'NOT', '@)(']
+            'éè', 'rule:', '@@', '!!', 'NOT', '@)(', ' ', '  ', '\t', '\n', ' \t\n ', '\r\n', '\xa0', '\u2003', '\x0b', '\x0c',
+            ' @', '@ ', ' @ ', '\t@\n', ' ! ', '( @ )', ' ( ', ' not ', '@\n@']
     for _ in range(200 if tier == 'quick' else 2000):
         junk.append(''.join(rng.choice('()@! abro:le"\'n%d\t') for _ in range(rng.randint(1, 8))))
     from oslo_policy import _parser, _checks
@@ -325,7 +353,7 @@ def c02(tier='quick', seed=0):
         if not isinstance(chk, _checks.BaseCheck):
             viol.append({'key': text, 'detail': 'parse_rule(%r) returned %r' % (text, chk)})
             continue
-        verdict = junk_verdict(text) if text.strip() else None
+        verdict = junk_verdict(text) if text != '' else None     # only the empty string itself means allow
         if verdict is None:
             continue
         nt += 1
@@ -422,7 +450,9 @@ def c15(tier='quick', seed=0):
     ev = nt = 0
     viol = []
     samples = []
-    leaves = ['role:r0', 'role:r1', 'role:r2', '@', '!', 'rule:x', "'a':%(b)s", 'is_admin:True', 'http://h/%(p)s']
+    leaves = ['role:r0', 'role:r1', 'role:r2', '@', '!', 'rule:x', "'a':%(b)s", 'is_admin:True', 'http://h/%(p)s',
+              '"Member":%(role.name)s', 'True:%(x)s', '42:%(n)s', 'a.b:c', 'None:%(p)s', 'project_id:%(project_id)s',
+              '1.0:%(f)s', 'role:%(r)s', 'https://h:1/p?q=%(q)s', 'x:', ':y', 'a:b:c']
     n = 3000 if tier == 'quick' else 30000
     seen = set()
     only_roles = [l for l in leaves if l.startswith('role:')]
@@ -439,7 +469,17 @@ def c15(tier='quick', seed=0):
         p2 = str(chk2)
         if len(samples) < 3:
             samples.append({'text': text, 'printed': p1})
-        if p1 != p2:
+        # the printed text must denote the rule that was written: same leaves, same structure up to the
+        # associativity of and/or (the parser may flatten "(a and b) and c", which changes no decision)
+        want_ast = ref_flat(ref_parse(spec_tokens(text)))
+        try:
+            got_ast = ref_flat(ref_parse(spec_tokens(p1)))
+        except Reject:
+            got_ast = None
+        if got_ast != want_ast:
+            viol.append({'key': text, 'detail': '%r prints %r, which reads as %r instead of %r' % (
+                text, p1, got_ast and ref_print(got_ast), ref_print(want_ast))})
+        elif p1 != p2:
             viol.append({'key': text, 'detail': '%r prints %r which re-parses to %r' % (text, p1, p2)})
         elif all(t in only_roles or t in ('@', '!', 'and', 'or', 'not', '(', ')') for t in
                  text.replace('(', ' ( ').replace(')', ' ) ').split()):
